@@ -4,7 +4,7 @@ _PROOF_NOTE = ("Trusted: z3/cvc5, CPython's ast module, the home-made VC generat
                "assumed contracts of stdlib/third-party callees (listed in evidence.trusted_base), float-as-real (A-real). "
                "Bounded stand-ins are labelled `bounded` and never counted as discharged.")
 _T = ("Template obligations are decided per constructor case by CPython's own parser on instantiated templates (deductive in structure: all paths of the real generator, induction hypothesis as callee contract; "
-      "sampled in the hole contents, with an all-strings z3 obligation on every raw quoting site). sly's LR driver and tokenize loop, pydantic validation and black are assumed contracts with bounded cross-checks.")
+      "sampled in the hole contents, with an all-strings z3 obligation on every raw quoting site). sly's tokenize loop and LR driver loop are under step contracts (each path of the real loop body == scanner step / LR step; re.match, the generator protocol and LR parsing theory assumed); pydantic validation and black are assumed contracts with bounded cross-checks.")
 
 
 def _e(engine, ref, technique, text, note=_PROOF_NOTE):
@@ -21,12 +21,12 @@ INFO = {
     "C05": _e("rxvc+pyvc+tmpl", "DESIGN.md 4/C05", "contract-based deductive verification: token-function VCs (z3 strings), literal grammar actions, pydantic model case analysis on the real annotations, raw-quoting z3 obligations and literal oracle cases on the generator",
               "value and type of every literal kind are preserved by each stage: lexeme -> token value -> action -> model field -> rendered Python literal (repr contract assumed); adversarial literal pools through the parse oracle", _PROOF_NOTE + " " + _T),
     "C06": _e("rxvc+pyvc", "DESIGN.md 4/C06", "contract-based deductive verification: lexer error-equivalence (regular languages), error callbacks proved to raise on every path (pyvc), grammar table == G_ref without conflicts or error productions, recompile's None=>ParseError clause",
-              "a character that starts no token reaches error() exactly where the documented scanner rejects, both error callbacks raise on all paths so recovery is dead, the grammar is the documented one; LALR acceptance itself is assumed (bounded mutant differential)", _PROOF_NOTE),
+              "a character that starts no token reaches error() exactly where the documented scanner rejects, both error callbacks raise on all paths so recovery is dead, the grammar is the documented one and sly's tables equal an independent LALR(1) construction; the LR driver loop is under a step contract; LR parsing theory itself is assumed", _PROOF_NOTE),
     "C07": _e("rxvc+pyvc+tmpl", "DESIGN.md 4/C07", "contract-based deductive verification: whole-word keyword obligations (rxvc), model totality, generator validity obligations (distinct parameters, tuple members in scope, both layouts parse) by structural induction with the parse oracle",
               "every grammatical text lexes, every model constructor is total on grammar values, every generator constructor case yields valid Python for any nesting/chain length (induction over constructors); reserved-name identifiers are a recorded known finding whose exclusion set is itself an obligation", _PROOF_NOTE + " " + _T),
     "C08": _e("rxvc+pyvc", "DESIGN.md 4/C08", "contract-based verification of the lexer tables: pick languages of the live master-regex tables vs the documented scanner as regular-language emptiness obligations (complete DFA procedure) + pyvc contracts on the token functions",
               "for ALL texts: every ignored rule consumes only whitespace or one complete line comment, whitespace is always covered, the block-comment state ends exactly at the first */ and never errors, comment callbacks emit no token; decided by a complete procedure on the tables dumped from the live classes",
-              _PROOF_NOTE + " sly's tokenize loop is an assumed contract (bounded differential against the documented scanner is the labelled stand-in)."),
+              _PROOF_NOTE + " sly's tokenize loop is under a step contract (every path of the real loop body == the documented scanner step; re.match and the generator protocol assumed); the bounded differential against the documented scanner remains as a labelled cross-check."),
     "C09": _e("tmpl+pyvc", "DESIGN.md 4/C09", "contract-based deductive verification: key / signature templates of the real generator vs D (parse oracle), __call__ forwarding contract (z3)",
               "the key expression is exactly salt + str() of the sorted distinct splitters and mentions no other name; the signature ends in **kwargs with no defaults; the helper is called by keyword; the experiment id occurs only as the def name", _PROOF_NOTE + " " + _T),
     "C10": _e("pyvc+tmpl", "DESIGN.md 4/C10", "contract-based deductive verification: position is a function of the key (contract of deterministic_proba), monotonicity lemma over the contract of deterministic_choice (z3 nonlinear), single key hole in the generator",
